@@ -86,6 +86,28 @@ def run_shard(desc, tier):
                     if got != want:
                         r.violation(f"bigparts:{path}", {"mode": "bigparts", "path": path, "n": n, "shape": shape, "chunks": [len(c) for c in chunks]},
                                     f"{path}: a {n}-byte part ({shape}) in chunks {[len(c) for c in chunks]}: got {str(got)[:150]!r}..., expected the form")
+        if path == "asgi_form":
+            # an upload that outgrows the in-memory spool (1 MiB) while it arrives in 64 KiB pieces, written out through a thread
+            # pool that runs the jobs of one loop turn last-in-first-out: the file holds the bytes in the order they arrived
+            n = (1 << 20) + 200000
+            blob = bytes((i * 13 + i // 65536) % 251 for i in range(n))
+            parts = [MP.part("t", None, b"head"), MP.part("u", "big.bin", blob), MP.part("after", None, b"tail")]
+            body = MR.encode(parts, b"bd")
+            want = MR.expected_items(parts)
+            for order in ("inline", "reverse"):
+                for size in (65536, 300000):
+                    chunks = [body[i:i + size] for i in range(0, len(body), size)]
+                    r.count("evaluations")
+                    r.count("traces")
+                    r.count("distinct_nontrivial")
+                    try:
+                        got = MP.via_asgi_form(chunks, b"bd", "utf-8", executor_order=order)
+                    except Exception as e:  # noqa
+                        got = ("raised", type(e).__name__, str(e)[:100])
+                    if got != want:
+                        where = next((k for k in range(n) if got[1][3][k:k + 1] != blob[k:k + 1]), None) if isinstance(got, list) and len(got) == 3 and len(got[1]) == 4 else None
+                        r.violation("bigparts:asgi_form:spooled-upload", {"mode": "bigparts", "path": path, "n": n, "shape": "spooled", "chunks": [size], "executor_order": order},
+                                    f"asgi_form: an upload of {n} bytes arriving in {size}-byte pieces, thread pool order '{order}': the stored file differs from what was sent (first difference at byte {where}; outcome {str(got)[:80]!r})")
         r.count("states", 1)
         r.sample({"bigparts": path, "sizes": [65535, 65536, 65537, 70000, 140000]})
     elif desc[0] == "after-bad-request":
